@@ -40,7 +40,7 @@ func init() {
 		Text:    "Every store to RequiredFields.fields is an append to the receiver's own (fresh) list, a make or a literal — never another list's slice: Add appends in place, so an aliased list lets two records overwrite each other's required fields.",
 		Props:   []string{"C06", "C01"},
 		Modules: []string{"v2"}, // the root module's RequiredFields is an immutable []string
-		Floor:   map[string]int{"v2": 2},
+		Floor:   map[string]int{"v2": 1}, // Add's own append; NewRequiredFields may reuse Add (benign C13-f3)
 		Run:     runR066,
 	})
 	core.Register(&core.Rule{
@@ -230,6 +230,39 @@ func runR066(c *core.Ctx) {
 			continue
 		}
 		ast.Inspect(fd.Body, func(x ast.Node) bool {
+			if cl, ok := x.(*ast.CompositeLit); ok {
+				// RequiredFields{fields: e} / RequiredFields{e}: a store like any other
+				if nn := namedOf(inf.Types[cl].Type); nn != nil && nn.Obj() == rfT {
+					for k, el := range cl.Elts {
+						var val ast.Expr
+						if kv, ok := el.(*ast.KeyValueExpr); ok {
+							if id, ok := kv.Key.(*ast.Ident); ok && core.NameOf(inf.Uses[id]) == "fields" {
+								val = kv.Value
+							}
+						} else if k == 0 {
+							val = el
+						}
+						if val == nil {
+							continue
+						}
+						n++
+						fresh := false
+						switch r := core.Unparen(val).(type) {
+						case *ast.CompositeLit:
+							fresh = true
+						case *ast.CallExpr:
+							if id, ok := core.Unparen(r.Fun).(*ast.Ident); ok && (id.Name == "make" || id.Name == "append" && len(r.Args) >= 1 && core.IsNil(inf, r.Args[0])) {
+								fresh = true
+							}
+						default:
+							fresh = core.IsNil(inf, val)
+						}
+						c.Check(fresh, rel, core.DeclName(fd), fmt.Sprintf("RequiredFields literal #%d builds a list of its own", ordinal(fd, cl)), cl.Pos(), "fresh list",
+							core.ExprString(val)+" aliases another list's backing array: a later Add on either list overwrites the other's entries")
+					}
+				}
+				return true
+			}
 			as, ok := x.(*ast.AssignStmt)
 			if !ok {
 				return true
@@ -654,7 +687,7 @@ func init() {
 		Title: "the resolver's URL is copied, never written through",
 		Text: "In formatQueryUrl and newRequest no assignment stores through a *url.URL (field store or *p = …): the base is cleared on a local struct copy (base := *hostUrl). " +
 			"Resolvers hand out the same pointer on every call, so a store through it strips the context path from every later request (and races with concurrent ones).",
-		Props: []string{"C15", "C17", "C02"},
+		Props: []string{"C15", "C17", "C02", "C09"},
 		Floor: map[string]int{"v2": 1, "root": 1},
 		Run:   runR156,
 	})
